@@ -149,6 +149,42 @@ pub fn minimise_stream(orig: &StreamTrace, prop: Prop, clause: &str, b: &mut Bud
             }
         }
     }
+    // 4b. shrink valid frames: cut the tail of a frame's payload and re-frame it (length field and
+    //     checksum recomputed by the reference), so that a frame needed only as "some valid frame"
+    //     ends up as small as the violation allows
+    {
+        let mut i = 0;
+        while i < cur.segments.len() && b.ok() {
+            let seg = cur.segments[i].clone();
+            let (a, n) = (seg.start, seg.len);
+            let is_frame = n >= 7 && a + n <= cur.stream.len() && matches!(crate::refmodel::ref_accept(&cur.stream[a..a + n]), crate::refmodel::Accept::Accept(l) if l + 6 == n);
+            if is_frame {
+                let l = n - 6;
+                for keep in [0usize, 2, l / 2, l - 1] {
+                    if keep >= l || !b.ok() {
+                        continue;
+                    }
+                    let mut cand = cur.clone();
+                    let reserved = cand.stream[a + 1] >> 2;
+                    let payload: Vec<u8> = cand.stream[a + 3..a + 3 + keep].to_vec();
+                    let nf = crate::refmodel::make_frame(reserved, &payload);
+                    // drop the payload tail, then overwrite the (now shorter) frame in place
+                    cand.remove_range(a + 3 + keep, a + 3 + l);
+                    if a + nf.len() <= cand.stream.len() {
+                        cand.stream[a..a + nf.len()].copy_from_slice(&nf);
+                        if let Some(sg) = cand.segments.iter_mut().find(|s| s.start == a) {
+                            sg.intact = seg.intact;
+                        }
+                        if fails_stream(&cand, prop, clause, b) {
+                            cur = cand;
+                            break;
+                        }
+                    }
+                }
+            }
+            i += 1;
+        }
+    }
     // 5. simplest rover variant
     if cur.rx_variant != 1 && b.ok() {
         let mut cand = cur.clone();
